@@ -30,6 +30,15 @@ def avgPairs : List α → List α
   | a :: b :: r => ((a + b) / 2) :: avgPairs (b :: r)
   | _ => []
 
+/-- ascending successive changes `[a1 - a0, a2 - a1, …]`: the width increments the distribution refers to
+(`-numpy.diff` of the reversed array, reversed back) -/
+def increments : List α → List α
+  | a :: b :: r => (b - a) :: increments (b :: r)
+  | _ => []
+
+/-- `2 * (thickness + kelvin_radii)` at ALL the pressures handed to a method, ascending (the result reports all but the highest) -/
+def fullWidths (thick kelvin : List α) : List α := List.zipWith (fun t k => 2 * (t + k)) thick kelvin
+
 /-- what the three functions return, in ascending pressure order as the code returns it -/
 structure Result (α : Type) where
   widths : List α
